@@ -453,8 +453,19 @@ pub fn build_abiding_ext(g: &Genome, ext: Ext) -> Built {
             bp.push(Reg::Ctor { ty: t, variant: 0 });
         }
     }
+    // In a quarter of the applications the user's fallback handler (`fn(&pavex::Error)`) is registered in the root
+    // blueprint and one error type has no handler of its own: its errors go to the fallback, from whatever blueprint
+    // (nested blueprints that register handlers for *other* error types included).
+    let user_fallback = (g.n_errs as usize + n + g.observers.len()) % 4 == 0 && !eh_idx.is_empty();
+    let orphan = if user_fallback { Some(eh_idx[(n + mw_idx.len()) % eh_idx.len()]) } else { None };
+    if user_fallback {
+        bp.push(Reg::Comp { idx: comps.len() });
+        comps.push(CompSpec { kind: CompKind::ErrHandler { err: crate::spec::FALLBACK_ERR, default: false }, inputs: vec![], fallible: None, is_async: n % 2 == 0, route: None, fw: vec![], gens: vec![] });
+    }
     for e in &eh_idx {
-        bp.push(Reg::Comp { idx: *e });
+        if Some(*e) != orphan {
+            bp.push(Reg::Comp { idx: *e });
+        }
     }
     let mut placed: Vec<bool> = vec![false; h_idx.len()];
     let mut nest_counter = 0usize;
@@ -1100,6 +1111,35 @@ fn needed_types(spec: &AppSpec) -> Vec<(usize, usize)> {
     depth.into_iter().collect()
 }
 
+/// A fallible *transient* constructor whose error handler needs (directly or through other constructors) the very type
+/// that constructor builds: every attempt to build the handler's input can fail and needs the handler again.
+/// (Recorded finding of C09: the compiler unrolls this without end. The generators keep the shape out.)
+pub fn transient_needed_by_own_error_handler(spec: &AppSpec) -> bool {
+    fn reaches(spec: &AppSpec, from: usize, to: usize, seen: &mut Vec<usize>) -> bool {
+        if from == to {
+            return true;
+        }
+        if seen.contains(&from) {
+            return false;
+        }
+        seen.push(from);
+        spec.types[from].inputs.iter().any(|(j, _)| reaches(spec, *j, to, seen))
+    }
+    for (x, tx) in spec.types.iter().enumerate() {
+        if tx.life != Life::Transient || !tx.any_variant_fallible() {
+            continue;
+        }
+        for (ci, c) in spec.comps.iter().enumerate() {
+            let CompKind::ErrHandler { err, .. } = &c.kind else { continue };
+            let handles = tx.specific_eh == Some(ci) || (0..tx.variants.max(1)).any(|v| tx.fallible_of(v) == Some(*err)) || *err == crate::spec::FALLBACK_ERR;
+            if handles && c.inputs.iter().any(|(t, _)| reaches(spec, *t, x, &mut vec![])) {
+                return true;
+            }
+        }
+    }
+    false
+}
+
 fn remove_ctor_regs(regs: &mut Vec<Reg>, ty: usize) {
     regs.retain(|r| !matches!(r, Reg::Ctor { ty: t, .. } if *t == ty));
     for r in regs.iter_mut() {
@@ -1712,10 +1752,12 @@ pub fn build_stage_stress(raw: u64) -> AppSpec {
         bp.push(Reg::Comp { idx: comps.len() });
         comps.push(CompSpec { kind: CompKind::Observer, inputs: obs_inputs, fallible: None, is_async: false, route: None, fw: vec![], gens: vec![] });
     }
-    // a quarter of the applications have a long chain (11-16 middlewares, mostly of one kind: two-digit positions)
-    let long = next() % 4 == 0;
+    // a third of the applications have a long chain (12-20 middlewares, nearly all of one kind: two-digit positions within one stage)
+    let long = next() % 3 == 0;
     let long_kind = next() % 2;
-    let n_mw = if long { 11 + next() % 6 } else { 3 + next() % 5 };
+    let n_mw = if long { 12 + next() % 9 } else { 3 + next() % 5 };
+    // (half of the long chains inject nothing: whatever happens to their order, the generated code still compiles)
+    let bare = long && next() % 2 == 0;
     let mut inputs_for = |next: &mut dyn FnMut() -> usize| {
         let mut v = vec![];
         for t in 0..3usize {
@@ -1739,13 +1781,13 @@ pub fn build_stage_stress(raw: u64) -> AppSpec {
     };
     for _ in 0..n_mw {
         let kind = match next() % 7 {
-            _ if long && next() % 8 != 0 => if long_kind == 0 { CompKind::Pre } else { CompKind::Post },
+            _ if long && next() % 12 != 0 => if long_kind == 0 { CompKind::Pre } else { CompKind::Post },
             0 | 1 | 2 => CompKind::Pre,
             3 | 4 | 5 => CompKind::Post,
             _ => CompKind::Wrap,
         };
         let is_async = kind == CompKind::Wrap || next() % 3 == 0;
-        let inputs = if long && next() % 3 != 0 { vec![] } else { inputs_for(&mut next) };
+        let inputs = if bare || (long && next() % 3 != 0) { vec![] } else { inputs_for(&mut next) };
         let fallible = if with_errors && next() % 3 == 0 { Some(0) } else { None };
         bp.push(Reg::Comp { idx: comps.len() });
         comps.push(CompSpec { kind, inputs, fallible, is_async, route: None, fw: vec![], gens: vec![] });
@@ -1948,6 +1990,11 @@ pub fn wildify(base: &AppSpec, raw: u64) -> AppSpec {
                     continue;
                 }
                 spec.comps[c].inputs.push((t, Mode::Ref));
+                if transient_needed_by_own_error_handler(&spec) {
+                    // (recorded finding of C09, kept out by construction)
+                    spec.comps[c].inputs.pop();
+                    continue;
+                }
                 done.push(format!("x{c} (error path) additionally borrows T{t}"));
             }
         }
